@@ -78,6 +78,27 @@ class ConV:
     def assume_pos(s, expr): pass
 
 
+def unknown_mults(V, degree2=True, prefix=('x',)):
+    """certificate-search hints for quadratic obligations: the solver unknowns, their conjugates and the products x*conj(x')
+    (soundness does not depend on hints: the solver checks the certificate)"""
+    if not V.sym: return []
+    C = core.CTX; at = C.atoms
+    xs = [i for i in range(len(at.names)) if at.unknown[i] and at.names[i].startswith(prefix)]
+    lin = []
+    for i in xs:
+        lin.append(SC(Poly.atom(i)))
+        j, sg = at.conj_of(i)
+        if j != i: lin.append(SC(Poly.atom(j)))
+    out = list(lin)
+    if degree2:
+        xs2 = [i for i in range(len(at.names)) if at.unknown[i] and at.names[i].startswith(prefix)]
+        for a in xs2:
+            for b in xs2:
+                jb, _ = at.conj_of(b)
+                out.append(SC(Poly.atom(a)) * SC(Poly.atom(jb)))
+    return out
+
+
 # ---------------------------------------------------------------- concretisation
 def _rand_value(kind, rng):
     def mag():
@@ -303,7 +324,7 @@ def label_assignment(ctx, labels):
 # ---------------------------------------------------------------- running
 def concrete_residuals(obs, tol=1e-6):
     """an obligation is violated concretely when its residual exceeds 1e-6 of its own term magnitudes AND 1e-9 of the largest
-    magnitude in the whole run (floating-point noise on a structurally zero quantity is neither)"""
+    magnitude in the whole run, at least 1 (inputs are drawn between 0.1 and 30; floating-point noise on a structurally zero quantity is neither)"""
     import numpy as np
     rows = []
     gmax = 0.0
@@ -321,7 +342,7 @@ def concrete_residuals(obs, tol=1e-6):
         if sc == sc and sc != float('inf'): gmax = max(gmax, sc)
     bad = []
     for name, mag, sc in rows:
-        if mag != mag or not (mag <= tol * sc or mag <= 1e-9 * gmax or mag <= 1e-12):
+        if mag != mag or not (mag <= tol * sc or mag <= 1e-9 * max(gmax, 1.0)):
             bad.append((name, mag, sc))
     return bad
 
@@ -356,7 +377,9 @@ def run_symbolic(execute, cfg, mods, rounds=0, conj=False, symbolic_labels=False
             r = rounds if ob.rounds is None else ob.rounds
             cj = conj if ob.conj is None else ob.conj
             ok = ctx.entails_zero(e.p, rounds=0)
-            if not ok and (r or cj or ob.mults):
+            if not ok and ob.mults:
+                ok = ctx.entails_zero(e.p, rounds=0, conj=cj, extra_mults=[SC.lift(m).p for m in ob.mults])
+            if not ok and (r or cj):
                 for rr in range(1, max(r, 1) + 1):
                     ok = ctx.entails_zero(e.p, rounds=rr if r else 0, conj=cj, extra_mults=[SC.lift(m).p for m in ob.mults])
                     if ok or not r: break
